@@ -7,7 +7,7 @@ from ..models_io import ConfText, DatasetStub, DataVar, plain
 from ..models_py import PathVal, StringIOVal
 
 DEFAULT_KEY = '_stream'
-KNOWN = {'qartod': ['gross_range_test', 'spike_test', 'climatology_test', 'location_test', 'flat_line_test', 'rate_of_change_test',
+KNOWN = {'qartod': ['aggregate', 'gross_range_test', 'spike_test', 'climatology_test', 'location_test', 'flat_line_test', 'rate_of_change_test',
                     'attenuated_signal_test', 'density_inversion_test'],
          'argo': ['pressure_increasing_test', 'speed_test'], 'axds': ['valid_range_test']}
 
@@ -30,6 +30,12 @@ def logical_configs():
                                                                        'sal': {'zzz': {'t': {'q': 1}}, 'qartod': {'spike_test': sp}}})]
     out['parameterless'] = [dict(window=None, region=None, streams={'pres': {'argo': {'pressure_increasing_test': None}}})]
     out['parameterless-mixed'] = [dict(window=None, region=None, streams={'pres': {'argo': {'pressure_increasing_test': None}, 'qartod': {'gross_range_test': gr}}})]
+    out['empty-params'] = [dict(window=None, region=None, streams={'pres': {'argo': {'pressure_increasing_test': {}}}})]
+    out['empty-params-two-streams'] = [dict(window=None, region=None, streams={'pres': {'argo': {'pressure_increasing_test': {}}}, 'temp': {'qartod': {'aggregate': {}}}})]
+    out['same-window-twice'] = [dict(window={'starting': 100, 'ending': 200}, region=None, streams={'temp': {'qartod': {'gross_range_test': gr}}}),
+                                dict(window={'starting': 100, 'ending': 200}, region=None, streams={'sal': {'qartod': {'spike_test': sp}}, 'temp': {'qartod': {'spike_test': sp}}})]
+    out['no-window-twice'] = [dict(window=None, region=region, streams={'temp': {'qartod': {'gross_range_test': gr}}}),
+                              dict(window=None, region=region, streams={'sal': {'qartod': {'spike_test': sp}}})]
     out['windowed'] = [dict(window={'starting': 100, 'ending': 200}, region=None, streams={'temp': {'qartod': {'gross_range_test': gr}}})]
     out['half-window-region'] = [dict(window={'starting': 100}, region=region, streams={'temp': {'qartod': {'gross_range_test': gr}}, 'sal': {'qartod': {'spike_test': sp}}})]
     out['two-contexts'] = [dict(window={'starting': 100, 'ending': 200}, region=None, streams={'temp': {'qartod': {'gross_range_test': gr}}}),
